@@ -21,6 +21,8 @@ TAGS_PATH = os.path.join(os.path.dirname(os.path.abspath(ECAgent.__file__)), 'Ta
 
 NAMES = ['A', 'B', 'NONE', '_tag_counter', '_tag_names', 'add_tag', 'get_tag_name', 'itemize', '__len__',
          '__class__', '__dict__', '__init__', '', 'a b', '1x', 'C']
+# names given as strings that are not plain str objects: a numpy string scalar, an instance of a str subclass
+TYPED_NAMES = ['np:itemize', 'sub:add_tag', 'np:D', 'sub:get_tag_name', 'np:__len__']
 MODULE_NAMES = ['TagLibrary', '_module_library', '__getattr__', 'DuplicateTagError', '__name__']
 ORDINARY = {'A', 'B', 'C'}
 PROBE = 'ZZ_probe'
@@ -41,6 +43,23 @@ META = {
     'assumptions': ['names outside {A,B,C} may be accepted or rejected; either way the oracle applies in full',
                     'add_tag operability is probed on a deep copy of the library in every state'],
 }
+
+
+class StrSub(str):
+    pass
+
+
+def decode_name(name):
+    if name.startswith('np:'):
+        import numpy as np
+        return np.str_(name[3:])
+    if name.startswith('sub:'):
+        return StrSub(name[4:])
+    return name
+
+
+def plain(name):
+    return name.split(':', 1)[1] if name[:3] == 'np:' or name[:4] == 'sub:' else name
 
 
 def load_module():
@@ -155,7 +174,7 @@ class Harness:
         self.target = target
         self.names = list(names)
         self.config = {'target': target, 'names': self.names}
-        self.look = sorted(set(self.names + ['NONE', UNKNOWN, 'Q', 'A', 'B', 'C']))
+        self.look = sorted(set([plain(n) for n in self.names] + ['NONE', UNKNOWN, 'Q', 'A', 'B', 'C']))
 
     def fresh(self):
         w = World()
@@ -184,14 +203,15 @@ class Harness:
                 'G': observe_lib(None, self.look, True, w.mod)}
 
     def apply(self, w, op):
-        name = op[1]
+        arg = decode_name(op[1])
+        name = plain(op[1])
         before = self.observe_all(w)
         acc = w.acc[self.target]
         try:
             if self.target == 'G':
-                w.mod.add_tag(name)
+                w.mod.add_tag(arg)
             else:
-                w.L1.add_tag(name)
+                w.L1.add_tag(arg)
             raised = None
         except Exception as e:          # noqa - any exception is a rejection; what matters is what it leaves behind
             raised = e
@@ -201,7 +221,7 @@ class Harness:
             acc.append(name)
             w.last = ('accepted', name)
         else:
-            if name in ORDINARY and name not in acc:
+            if name in ORDINARY | {'D'} and name not in acc:
                 raise Violation(f'ordinary new tag name {name!r} rejected with {type(raised).__name__}',
                                 expected='accepted')
             if (name in acc or name == 'NONE') and type(raised).__name__ != 'DuplicateTagError':
@@ -400,7 +420,7 @@ def child_chunk(ctx, chunk):
 
 def run(ctx):
     depth = 3 if ctx.tier == 'quick' else 4
-    for target, names in (('L1', NAMES), ('G', NAMES + MODULE_NAMES)):
+    for target, names in (('L1', NAMES + TYPED_NAMES), ('G', NAMES + MODULE_NAMES + TYPED_NAMES[:2])):
         h = Harness(target, names)
         r = hbfs.explore(ctx, h, f'target_{target}', max_depth=depth, procs=ctx.procs)
         ctx.leg(f'target_{target}', **r)
